@@ -125,7 +125,7 @@ def run(ctx: Ctx) -> None:
     # ---- verbatim emission in trees ----------------------------------------------------
     cases = []
     for _ in range(ctx.budget(2500, 40000)):
-        d = trees.rand_tree(rng, rng.choice([1, 2, 3, 4]), leaves="THHRRM", names="bivsssc")
+        d = trees.rand_tree(rng, rng.choice([1, 2, 3, 4]), leaves="THHRRM", names="bivsssckk")
         cases.append((d, rng.randrange(0, 4), rng.choice(["\n", "\r\n", "", " "])))
 
     def raw_leaves(d, under_noesc=False, acc=None):
